@@ -40,6 +40,18 @@ theorem index_consistent (F : Fmt) (chunk minChunk workers : Nat) (ents : List T
   rw [wtf_toc, ← hflat]
   exact (AllGood.mono (by simpa using hag) (wtf_ext _ _ _ _ _ _ _) (fun _ h => h)).indexOK hpos'
 
+/-- The same, phrased with `content(e.name)`: when no two regular files share a name (what
+`importTar` establishes), every chunk entry reads `content(name)[chunkOffset, +chunkSize)`. -/
+theorem index_consistent_by_name (F : Fmt) (chunk minChunk workers : Nat) (ents : List TarEnt)
+    (tocTar : List TocEnt → Bytes) (orcF orcC : List Nat) (a : Nat) (b : Blob) (hc : 0 < chunk)
+    (hu : UniqueRegNames ents)
+    (h : build F chunk minChunk workers ents tocTar orcF orcC a = some b) :
+    ∀ x ∈ b.toc, x.isData = true → ∃ d, contentOf ents x.name = some d ∧
+      specRead b.members x d.length = some (expect d x) := by
+  intro x hx hd
+  obtain ⟨e, he, h1, h2, h3, h4, _⟩ := (index_consistent F chunk minChunk workers ents tocTar orcF orcC a b hc h).2 x hx hd
+  exact ⟨e.data, by rw [← h3]; exact contentOf_eq hu he h1 h2, h4⟩
+
 /-- The TOC of a built blob is, entry by entry (in the order given, TOC-named entries dropped),
 the group of that entry; the chunks of a file are together, ordered, contiguous and cover
 `[0,size)` - for every worker count (a file is never separated from its chunks). -/
